@@ -11,7 +11,7 @@ open AuthModel AuthModel.Tls
 /-- the trust decision for settings loaded for the first time: nothing configured → library defaults; a CA (inline,
     else from file) → system roots plus that CA with verification ON whatever skip says; only skip → verification
     off iff the bool / the parsed string says so -/
-theorem trust_decision (o : Oracle) (st : State) (s : Settings) (hnew : lookupPool st.pool s = none) :
+theorem trust_decision (o : Oracle) (st : State) (s : Settings) (hnew : lookupPool st.pool (keyOf o s) = none) :
     (load o st s).2 =
       if s.caInline = [] ∧ s.caFile = [] ∧ s.skip = .unset then .noConfig
       else if s.caInline ≠ [] then (if o.pemOk s.caInline then .cfg { insecure := false, extra := some s.caInline } else .error)
@@ -24,34 +24,42 @@ theorem trust_decision (o : Oracle) (st : State) (s : Settings) (hnew : lookupPo
   load_fresh o st s hnew
 
 theorem skip_only_when_requested_and_no_ca (o : Oracle) (st : State) (s : Settings) (t : Trust)
-    (hnew : lookupPool st.pool s = none) (h : (load o st s).2 = .cfg t) (hi : t.insecure = true) :
+    (hnew : lookupPool st.pool (keyOf o s) = none) (h : (load o st s).2 = .cfg t) (hi : t.insecure = true) :
     s.caInline = [] ∧ s.caFile = [] ∧ boolStr o s.skip = true :=
   insecure_only_if_requested o st s t hnew h hi
 
-theorem identical_settings_share (o : Oracle) (st : State) (s : Settings) (t : Trust) (h : lookupPool st.pool s = some t)
+theorem identical_settings_share (o : Oracle) (st : State) (s : Settings) (t : Trust) (h : lookupPool st.pool (keyOf o s) = some t)
     (hne : ¬(s.caInline = [] ∧ s.caFile = [] ∧ s.skip = .unset)) : load o st s = (st, .cfg t) :=
   pool_shares o st s t h hne
 
-theorem superseded_watcher_stops (st : State) (s : Settings) (w : Watcher) (hw : w ∈ st.watchers) (hid : w.id = (s, s.caFile)) :
+/-- "identical" is identity of MEANING: the pool key is the CA, the file, the interval and the value of skip-verify,
+    so settings that spell the same skip-verify value differently (unset / false / "false" / an unparsable string)
+    are one entry -/
+theorem identical_means_same_key (o : Oracle) (s s' : Settings) :
+    keyOf o s = keyOf o s' ↔
+      s.caInline = s'.caInline ∧ s.caFile = s'.caFile ∧ boolStr o s.skip = boolStr o s'.skip ∧ s.interval = s'.interval := by
+  simp [keyOf]
+
+theorem superseded_watcher_stops (st : State) (s : Key) (w : Watcher) (hw : w ∈ st.watchers) (hid : w.id = (s, s.caFile)) :
     ∃ w' ∈ (watchFile st s).1.watchers, w'.id = w.id ∧ w'.data = w.data ∧ w'.alive = false :=
   superseded_stops st s w hw hid
 
 /-- two different settings naming the same CA file each keep their own live watcher -/
-theorem every_user_of_a_file_keeps_its_watcher (st : State) (s : Settings) (w : Watcher) (hw : w ∈ st.watchers)
+theorem every_user_of_a_file_keeps_its_watcher (st : State) (s : Key) (w : Watcher) (hw : w ∈ st.watchers)
     (hid : w.id ≠ (s, s.caFile)) : w ∈ (watchFile st s).1.watchers :=
   other_settings_keep_their_watcher st s w hw hid
 
 /-- rotation: the callback of a watcher gives exactly its pool entry the new CA (system roots + new content) ... -/
-theorem rotation_reaches_entry (o : Oracle) (pool : List (Settings × Trust)) (s : Settings) (t : Trust) (data : Str)
+theorem rotation_reaches_entry (o : Oracle) (pool : List (Key × Trust)) (s : Key) (t : Trust) (data : Str)
     (h : lookupPool pool s = some t) (hp : o.pemOk data = true) :
     lookupPool (updateCA o pool s data) s = some { t with extra := some data } :=
   updateCA_entry o pool s t data h hp
 
 /-- ... leaves every other entry alone, and ignores unparsable content -/
-theorem rotation_leaves_others (o : Oracle) (pool : List (Settings × Trust)) (s s' : Settings) (data : Str) (hne : s' ≠ s) :
+theorem rotation_leaves_others (o : Oracle) (pool : List (Key × Trust)) (s s' : Key) (data : Str) (hne : s' ≠ s) :
     lookupPool (updateCA o pool s data) s' = lookupPool pool s' := updateCA_other o pool s s' data hne
 
-theorem unparsable_rotation_ignored (o : Oracle) (pool : List (Settings × Trust)) (s : Settings) (data : Str)
+theorem unparsable_rotation_ignored (o : Oracle) (pool : List (Key × Trust)) (s : Key) (data : Str)
     (hp : o.pemOk data = false) : updateCA o pool s data = pool := updateCA_unparsable o pool s data hp
 
 /-- lock discipline of the pool and of the watcher table (regenerated): every access to `configs` / `watchers` holds
@@ -65,7 +73,7 @@ def oX : Oracle := { parseBool := fun s => s == B "true", pemOk := fun s => s !=
 def sFile : Settings := { caInline := [], caFile := B "/ca", skip := .str (B "true"), interval := 5 }
 def st1 : State := rewrite init (B "/ca") (some (B "CA-A"))
 example : (load oX st1 sFile).2 = .cfg { insecure := false, extra := some (B "CA-A") } := by decide
-example : lookupPool (tickAll oX (rewrite (load oX st1 sFile).1 (B "/ca") (some (B "CA-B")))).pool sFile
+example : lookupPool (tickAll oX (rewrite (load oX st1 sFile).1 (B "/ca") (some (B "CA-B")))).pool (keyOf oX sFile)
     = some { insecure := false, extra := some (B "CA-B") } := by decide
 example : (load oX init { caInline := [], caFile := [], skip := .str (B "true"), interval := 0 }).2
     = .cfg { insecure := true, extra := none } := by decide
@@ -75,6 +83,7 @@ end AuthProps.C20
 #print axioms AuthProps.C20.trust_decision
 #print axioms AuthProps.C20.skip_only_when_requested_and_no_ca
 #print axioms AuthProps.C20.identical_settings_share
+#print axioms AuthProps.C20.identical_means_same_key
 #print axioms AuthProps.C20.superseded_watcher_stops
 #print axioms AuthProps.C20.every_user_of_a_file_keeps_its_watcher
 #print axioms AuthProps.C20.rotation_reaches_entry
